@@ -122,7 +122,7 @@ type C09 struct{}
 func (e *C09) ID() string    { return "C09" }
 func (e *C09) Level() string { return "exploration" }
 func (e *C09) Rule() string {
-	return "section A (exhaustive): every single-byte perturbation (24 positions x 256 values) of each of the 31 canonical headers; section B: every canonical header followed by random suffixes of length 0..8 KiB and every truncation to 0..23 bytes; section C: seeded random 24-byte strings and two-byte perturbations. Every stream goes through Buf(b), Buf(b[:24]), Scan, ScanBuf and ReadAt, and again through Scan and ScanBuf over readers that deliver it one byte at a time, in uneven short reads, and with the last bytes together with io.EOF, and through Scan on seekable / ReadAt-capable readers that were already read from; suffixes include runs of the tokens the predicates look for (brands, magic numbers) behind headers whose own slots were blanked. Oracle: all five agree on the type and on the error class; bytes beyond 24 do not matter; ScanBuf leaves the whole stream readable; fewer than 24 bytes gives an error and no type; ErrImageTypeNotFound exactly when the type is unknown; a reported type F requires F's signature per the harness's independent table (liberal form); a header carrying exactly one documented standard signature (strict form, with the precedences CR2 and CRW over TIFF (more specific over generic), major brand among ftyp formats) must be reported as that format; where two signatures match without a documented precedence either is accepted. Non-trivial: the header is within two bytes of a canonical header; distinct = (nearest canonical header, position, result)."
+	return "section A (exhaustive): every single-byte perturbation (24 positions x 256 values) of each of the 31 canonical headers; section B: every canonical header followed by random suffixes of length 0..8 KiB and every truncation to 0..23 bytes; section C: seeded random 24-byte strings and two-byte perturbations. Every stream goes through Buf(b), Buf(b[:24]), Scan, ScanBuf and ReadAt (also over an io.ReaderAt that reports io.EOF together with the last bytes), and again through Scan and ScanBuf over readers that deliver it one byte at a time, in uneven short reads, and with the last bytes together with io.EOF, and through Scan on seekable / ReadAt-capable readers that were already read from; suffixes include runs of the tokens the predicates look for (brands, magic numbers) behind headers whose own slots were blanked. Oracle: all five agree on the type and on the error class; bytes beyond 24 do not matter; ScanBuf leaves the whole stream readable; fewer than 24 bytes gives an error and no type; ErrImageTypeNotFound exactly when the type is unknown; a reported type F requires F's signature per the harness's independent table (liberal form); a header carrying exactly one documented standard signature (strict form, with the precedences CR2 and CRW over TIFF (more specific over generic), major brand among ftyp formats) must be reported as that format; where two signatures match without a documented precedence either is accepted. Non-trivial: the header is within two bytes of a canonical header; distinct = (nearest canonical header, position, result)."
 }
 func (e *C09) Assumptions() []string {
 	return []string{"the signature table is the harness's own, written from the format definitions cited in the package comments; JPEG 2000 is reported as image/jpeg (pinned by the existing test suite)"}
@@ -171,6 +171,15 @@ func sniffAll(c *core.Ctx, b []byte) (imagetype.ImageType, bool) {
 		c.Rec.Eval(2)
 		if t1 != rs[0].t || (e1 == nil) != (rs[0].err == nil) || t2 != rs[0].t || (e2 == nil) != (rs[0].err == nil) {
 			c.Rec.Violation("sniff:position:Scan", fmt.Sprintf("Scan on a seekable reader positioned %d bytes into its underlying data reports %v/%v (instrumented reader) and %v/%v (bytes.Reader) but Buf(b) reports %v/%v header=%x len=%d", len(junk), t1, e1, t2, e2, rs[0].t, rs[0].err, b[:min(len(b), 24)], len(b)), map[string]any{"header_hex": fmt.Sprintf("%x", b[:min(len(b), 24)]), "len": len(b)})
+		}
+	}
+	// an io.ReaderAt may return io.EOF together with a read that ends exactly at the end of its
+	// source (n == len(p), err == EOF is allowed by the interface's contract)
+	{
+		t3, e3 := imagetype.ReadAt(eofReaderAt(b))
+		c.Rec.Eval(1)
+		if t3 != rs[0].t || (e3 == nil) != (rs[0].err == nil) {
+			c.Rec.Violation("sniff:readat-eof", fmt.Sprintf("ReadAt over a reader that reports io.EOF together with the last bytes gives %v/%v but Buf(b) gives %v/%v header=%x len=%d", t3, e3, rs[0].t, rs[0].err, b[:min(len(b), 24)], len(b)), map[string]any{"header_hex": fmt.Sprintf("%x", b[:min(len(b), 24)]), "len": len(b)})
 		}
 	}
 	// the same stream delivered in pieces (one byte at a time, uneven short reads, last bytes
@@ -406,4 +415,19 @@ func (e *C09) Run(c *core.Ctx, idx int) {
 			}
 		}
 	}
+}
+
+// eofReaderAt reports io.EOF whenever a read reaches the end of its bytes, also when the read was
+// satisfied in full.
+type eofReaderAt []byte
+
+func (e eofReaderAt) ReadAt(p []byte, off int64) (int, error) {
+	if off >= int64(len(e)) {
+		return 0, io.EOF
+	}
+	n := copy(p, e[off:])
+	if int(off)+n == len(e) {
+		return n, io.EOF
+	}
+	return n, nil
 }
